@@ -178,6 +178,10 @@ def consumed_keys():
 
 def run(rep: core.Report):
     _r16g(rep)
+    from rules import c03
+
+    rep.rule("R16h", "what save() writes is one state: after Phonopy.masses is assigned, unit cell, supercell and primitive cell all hold the new masses (the loader rebuilds everything from the unit cell), each derived from the freshly assigned values and not from an attribute read before its own update", 4)
+    c03.masses_setter(rep, "R16h")
     rep.rule("R16a", "yaml key agreement: every key the loader needs for the fields the property names is emitted by the dumper and vice versa; every other key the loader reads is emitted or a listed legacy key; a membership test guards the key that is then looked up", 45)
     rep.rule("R16b", "save() hands every piece of state to the dumper; dumper settings keys are known", 14)
     rep.rule("R16c", "writers of whitespace-tokenised files separate adjacent numeric fields by a literal delimiter and write as many fields per line as the parser reads", 6)
@@ -665,4 +669,5 @@ def selftest():
     b("calculator default replaces the stored NAC factor", LOADH, '    if _nac_params and "factor" not in _nac_params and nac_factor is not None:', '    if _nac_params and nac_factor is not None:', "R16g", "factor")
     n("default filled with setdefault-like guard order", LOADH, '    if _nac_params and "factor" not in _nac_params and nac_factor is not None:', '    if nac_factor is not None and _nac_params and "factor" not in _nac_params:')
     n("default filled by a merge with the defaults first", LOADH, '    if _nac_params and "factor" not in _nac_params and nac_factor is not None:\n        _nac_params["factor"] = nac_factor', '    if _nac_params and nac_factor is not None:\n        _nac_params = {"factor": nac_factor, **_nac_params}')
+    b("unit-cell masses read from the supercell before it is updated", API, "        u2s_map = self._supercell.u2s_map\n        u_masses = s_masses[u2s_map]\n        self._unitcell.set_masses(u_masses)", "        self._unitcell.set_masses(self._unitcell.masses)", "R16h", "self._unitcell")
     return V
